@@ -19,6 +19,7 @@
 #include <core/sync.h>
 #include <datatypes/msg_queue.h>
 #include <distributed/mpi.h>
+#include <gvt/termination.h>
 #include <verif/rsv.h>
 
 #include <memory.h>
@@ -49,6 +50,8 @@ static _Atomic rid_t c_a = 0;
 static _Atomic rid_t c_b = 0;
 
 static _Atomic nid_t gvt_nodes;
+/// Set once the calling thread is running the final flushing reductions of gvt_msg_drain()
+static __thread bool drain_flush;
 
 __thread _Bool gvt_phase;
 __thread uint32_t remote_msg_seq[2][MAX_NODES];
@@ -263,8 +266,10 @@ simtime_t gvt_phase_run(void)
 
 	if(unlikely(!rid && !nid)) {
 		timer_uint t = timer_new();
+		// once the termination has been decided only gvt_msg_drain() may start new reductions
 		if(unlikely(global_config.gvt_period < t - gvt_timer &&
-			    !atomic_load_explicit(&gvt_nodes, memory_order_relaxed))) {
+			    !atomic_load_explicit(&gvt_nodes, memory_order_relaxed) &&
+			    (termination_cant_end() || drain_flush))) {
 			gvt_timer = t;
 			atomic_fetch_add_explicit(&gvt_nodes, n_nodes, memory_order_relaxed);
 			mpi_control_msg_broadcast(MSG_CTRL_GVT_START);
@@ -277,8 +282,28 @@ simtime_t gvt_phase_run(void)
 void gvt_msg_drain(void)
 {
 	RSV_EV(RSV_EV_STAGE, NULL, 1, 0, 0.0);
-	while(thread_phase != thread_phase_idle) // flush partial gvt algorithm
-		gvt_phase_run();
+	// flush partial gvt algorithm: a reduction may have been started by another thread right before the termination
+	// was decided; keep serving the algorithm until all the threads of the node are here with no reduction in progress
+	static _Atomic rid_t idle_thr;
+	bool counted = false;
+	while(1) {
+		if(thread_phase != thread_phase_idle || atomic_load_explicit(&c_b, memory_order_relaxed)) {
+			if(counted) {
+				atomic_fetch_sub_explicit(&idle_thr, 1U, memory_order_relaxed);
+				counted = false;
+			}
+			gvt_phase_run();
+			continue;
+		}
+		if(!counted) {
+			atomic_fetch_add_explicit(&idle_thr, 1U, memory_order_relaxed);
+			counted = true;
+		}
+		if(atomic_load_explicit(&idle_thr, memory_order_relaxed) == global_config.n_threads)
+			break;
+		spin_pause();
+	}
+	drain_flush = true;
 
 	RSV_EV(RSV_EV_STAGE, NULL, 2, 0, 0.0);
 	if(sync_thread_barrier())
